@@ -356,4 +356,20 @@ def Call.mapArgs (f : Str → Str) : Call → Call
   | .validdomain a => .validdomain (f a)
   | .equal a b => .equal (f a) (f b) | .dnsequal a b => .dnsequal (f a) (f b)
 
+/-! ## Histories and concurrent callers (round 10)
+
+The functions of `framework/address` / `framework/dns` keep no state between calls — no cache, no memo of the last
+answer, no shared scratch buffer: `run` is a function of the call alone. A *history* (one caller, calls made one
+after the other) and *concurrent callers* (several goroutines, each with its own program) are therefore answered
+call by call; what was asked before, or what another goroutine is asking at the same time, does not matter. The
+harness runs such histories / concurrent programs on the real code (ops `hist`, `par`); an answer that depends on the
+history or on the schedule is a divergence and the monitor violations `C17/result-depends-on-history`,
+`C17/concurrent-result-differs`, `C17/concurrent-panic`. -/
+
+/-- the answers to a history of calls (one caller) -/
+def runHist (P : Prims) (cs : List Call) : List Outcome := cs.map (run P)
+
+/-- the answers seen by concurrent callers: thread `t` runs `threads[t]` in program order -/
+def runPar (P : Prims) (threads : List (List Call)) : List (List Outcome) := threads.map (runHist P)
+
 end MaddyVerif.Address
